@@ -57,6 +57,8 @@ pub fn c16_neg_add() {
 // ---------------------------------------------------------------------------------------
 use super::dump;
 use super::pos::{self, BPos, B, K, N, P, Q, R};
+use crate::chess::bitboard::Bitboard;
+use super::geom;
 use crate::engine::eval::{self, piece_square_tables, verif_access as ea, IncrementalEvalFields};
 
 #[cfg(not(test))]
@@ -175,4 +177,58 @@ pub fn total(per_kind: u32, pawns: u32) {
     kani::cover!(a.0 > 300);
     std::mem::forget(g);
     std::mem::forget(gm);
+}
+
+// ---------------------------------------------------------------------------------------
+// per-cell antisymmetry lemmas (cheap, unbounded): every term is a SUM over men of a per-man value
+// (by inspection of the loops in piece_square_tables::eval, pawn_structure::calculate_passed_pawn_bonus and
+// phase_value; the sum form of init() is c15_init_is_sum), so term(mirror(P)) == -term(P) follows from the
+// per-man statement below by commutativity of addition - the step a SAT solver cannot do on 64-term sums.
+// ---------------------------------------------------------------------------------------
+use crate::chess::piece::Piece;
+use crate::chess::player::Player;
+use crate::chess::square::Square;
+
+/// piece-square(+material) value of a man == minus the value of the colour-swapped man on the rank-flipped square;
+/// its game-phase contribution is colour-blind. Real tables, every (colour, kind, square).
+#[kani::proof]
+pub fn c16_cell_pst() {
+    load_tables();
+    let (c, k, sq): (usize, usize, u8) = (kani::any(), kani::any(), kani::any());
+    kani::assume(c < 2 && k < 6 && sq < 64);
+    #[cfg(test)] println!("REPLAY-CASE {{\"colour\":{},\"kind\":{},\"square\":{}}}", c, k, sq);
+    let a = piece_square_tables::piece_contributions(Square::from_index(sq), Piece::new(pos::player_of(c), pos::kind_of(k)));
+    let b = piece_square_tables::piece_contributions(Square::from_index(sq ^ 56), Piece::new(pos::player_of(1 - c), pos::kind_of(k)));
+    assert!(-a == b);
+    assert!(a.midgame().0 as i32 == -(b.midgame().0 as i32) && a.endgame().0 as i32 == -(b.endgame().0 as i32));
+    // magnitude: sixteen men of the dearest kind stay far inside an i16 half
+    assert!(a.midgame().0.abs() < 1400 && a.endgame().0.abs() < 1400);
+    kani::cover!(k == 4 && c == 1);
+}
+
+/// passed-pawn term per pawn: passed-ness and bonus are mirror images for the two colours. Real masks and table,
+/// every square, every enemy pawn set.
+#[kani::proof]
+pub fn c16_cell_passed_pawn() {
+    load_tables();
+    let sq: u8 = kani::any();
+    let theirs: u64 = kani::any();
+    kani::assume(sq >= 8 && sq < 56);
+    kani::assume(theirs & (geom::RANK_1 | geom::RANK_8) == 0);
+    #[cfg(test)] println!("REPLAY-CASE {{\"square\":{},\"their_pawns\":\"{:#x}\"}}", sq, theirs);
+    let w = eval::pawn_structure::is_passed(Square::from_index(sq), Player::White, Bitboard::new(theirs));
+    let b = eval::pawn_structure::is_passed(Square::from_index(sq ^ 56), Player::Black, Bitboard::new(theirs.swap_bytes()));
+    assert!(w == b);
+    assert!(ea::pawns::mask(Player::White, Square::from_index(sq)).as_u64() == ea::pawns::mask(Player::Black, Square::from_index(sq ^ 56)).as_u64().swap_bytes());
+    // a white pawn is passed iff no enemy pawn stands on its own or an adjacent file on any rank in front of it
+    let f = sq % 8;
+    let mut files = geom::FILE_A << f;
+    if f > 0 { files |= geom::FILE_A << (f - 1); }
+    if f < 7 { files |= geom::FILE_A << (f + 1); }
+    let ahead = if sq / 8 == 7 { 0 } else { !0u64 << (8 * (sq / 8 + 1)) };
+    // (pawns on the seventh rank count as passed by the engine's definition: nothing can stand in front on the eighth)
+    if sq / 8 < 6 { assert!(w == (theirs & files & ahead == 0)); }
+    assert!(-ea::pawns::pst(Player::White, Square::from_index(sq)) == ea::pawns::pst(Player::Black, Square::from_index(sq ^ 56)));
+    kani::cover!(w && theirs != 0);
+    kani::cover!(!w);
 }
